@@ -773,6 +773,8 @@ impl PaZipCompressor {
             let end = (start + BLOCK_SIZE).min(input.len());
             let block = &input[start..end];
 
+            // the sequential encoder hands out the whole scratch buffer: start every block with an empty one
+            self.output_buffer.clear();
             let mut block_output = Vec::new();
             self.compress_sequential(block, &mut block_output)?;
             compressed_blocks.push(block_output);
